@@ -330,13 +330,42 @@ pub fn c05<T: Fx>(thorough: bool) -> Vec<CellDef> {
             pr.extend(crate::deep::inverse_pairs(32, 2, if thorough { 1 << 13 } else { 1 << 10 }));
             pr.sort();
             pr.dedup();
-            Some((std::sync::Arc::new(pr), 34, format!("a in [1,2) with a 27-bit fraction shape x b at every scale with every fraction shape, kept when the exact product has a sparse tail of length >= {z}; plus modular-inverse pairs (unstructured a, b solved so that the low 28 product bits are a chosen tail)")))
+            Some((std::sync::Arc::new(pr), 66, format!("a in [1,2) with a 27-bit fraction shape x b at every scale with every fraction shape, kept when the exact product has a sparse tail of length >= {z}; plus modular-inverse pairs (unstructured a, b solved so that the low 28 product bits are a chosen tail)")))
+        }
+        _ => None,
+    };
+    // pairs whose product is unusually close to a rounding boundary + the sparse-tail pairs, with the addend solved for
+    let solve: Option<(std::sync::Arc<Vec<(u32, u32)>>, u32, String)> = match T::N {
+        16 => {
+            let mut pr = crate::deep::near_tie_pairs(16, 1, if thorough { 400 } else { 150 }, 5, if thorough { 12 } else { 3 });
+            let nt = pr.len();
+            pr.extend(crate::deep::pairs16(if thorough { 14 } else { 16 }));
+            pr.extend(crate::deep::unstructured_pairs(16, 1, if thorough { 20_000 } else { 2_000 }));
+            pr.sort();
+            pr.dedup();
+            Some((std::sync::Arc::new(pr), 30, format!("{nt} P16E1 pairs (fraction shapes + unstructured fractions at a menu of scales, complete cross product) whose exact product is within 2^-5 guard-bit units of a rounding boundary (stratified by product scale and distance), plus the sparse-tail pairs and unstructured pairs")))
+        }
+        32 => {
+            let zz = 8;
+            let mut pr = crate::deep::near_tie_pairs(32, 2, if thorough { 800 } else { 300 }, zz, if thorough { 12 } else { 3 });
+            let nt = pr.len();
+            if let Some((d, _, _)) = &deep {
+                pr.extend(d.iter().copied().step_by(if thorough { 2 } else { 8 }));
+            }
+            pr.extend(crate::deep::unstructured_pairs(32, 2, if thorough { 40_000 } else { 4_000 }));
+            pr.sort();
+            pr.dedup();
+            Some((std::sync::Arc::new(pr), 60, format!("{nt} P32E2 pairs (fraction shapes + unstructured fractions at a menu of scales, complete cross product) whose exact product is within 2^-{zz} guard-bit units of a rounding boundary (stratified by product scale and distance), plus a subset of the sparse-tail pairs and unstructured pairs")))
         }
         _ => None,
     };
     for kind in 0..3u8 {
         if let Some((pairs, depth, what)) = &deep {
             v.push(CellDef::new("C05", format!("{}/{}#deep", T::NAME, KINDS[kind as usize]), crate::deep::space(T::N, T::ES, pairs.clone(), *depth, true, what), move |k| fma_case::<T>(kind, k)));
+        }
+        if let Some((pairs, jmax, what)) = &solve {
+            let (nfm, nb) = if thorough { (4, 5) } else { (2, 3) };
+            v.push(CellDef::new("C05", format!("{}/{}#solve", T::NAME, KINDS[kind as usize]), crate::deep::solve_space(T::N, T::ES, pairs.clone(), *jmax, nfm, nb, kind, what), move |k| fma_case::<T>(kind, k)));
         }
         for (sfx, sp) in triples::<T>(thorough) {
             v.push(CellDef::new("C05", format!("{}/{}{}", T::NAME, KINDS[kind as usize], sfx), sp, move |k| fma_case::<T>(kind, k)));
